@@ -5,6 +5,7 @@ import genmeta
 import implck
 import metaprop
 from props import C04 as _C04
+import directed
 
 DESCRIPTION = ("Lean: Props/C18.lean (the wrapper reads the very lists introspection shows: judging a call by hand over the "
                "lists gives the wrapper's verdict - corollary of C01/C02; the hook is called once per class created through the "
@@ -34,8 +35,13 @@ def _manualable(c):
     return True
 
 
+run_directed = directed.run
+
+
 def cases(tier, rng):
     thorough = tier == "thorough"
+    for c in directed.special_results_cases():
+        yield "directed-special-results", c
     for c in genck.exhaustive_pre(genck.KINDS, [False, True], 3, 2, with_post=(False, True), with_snap=(False, True)):
         c["manual"] = True
         yield "exh", c
